@@ -118,7 +118,7 @@ class SchemaLoaderDF(SchemaLoader):
                 if not any(row):
                     continue
 
-                parent_tag = row[constants.subclass_of]
+                parent_tag = row[constants.subclass_of].strip()
                 org_parent_tags = known_parent_tags.get(parent_tag)
                 tag_entry = self._create_tag_entry(org_parent_tags, row_number, row)
                 if not tag_entry:
@@ -195,7 +195,7 @@ class SchemaLoaderDF(SchemaLoader):
 
         for row_number, row in df.iterrows():
             new_entry = self._create_entry(row_number, row, HedSectionKey.Units)
-            unit_class_name = row[constants.has_unit_class]
+            unit_class_name = row[constants.has_unit_class].strip()
             unit_class_entry = self._schema.get_tag_entry(unit_class_name, HedSectionKey.UnitClasses)
             unit_class_entry.add_unit(new_entry)
             self._add_to_dict(row_number, row, new_entry, HedSectionKey.Units)
@@ -215,7 +215,8 @@ class SchemaLoaderDF(SchemaLoader):
             self._add_to_dict(row_number, row, new_entry, section_key)
 
     def _get_tag_name(self, row):
-        base_tag_name = row[constants.name]
+        # Outer white space is not part of a name (a MediaWiki line cannot even express it).
+        base_tag_name = row[constants.name].strip()
         if base_tag_name.endswith("-#"):
             return "#"
         return base_tag_name
